@@ -1,6 +1,666 @@
-//! C17 — implementation side of the correspondence (stub).
+//! C17 — implementation side.
+//!
+//! (a) Codec: `Id::from(SocketAddrV4)` / `SocketAddrV4::from(Id)` swept over all 65 536 ports of many
+//!     ips (checksummed against the model per ip, every single round trip checked here), random
+//!     (ip, port) pairs and arbitrary `u64` ids compared one by one.
+//! (b) Trace validation: a child process (this binary with `--child`) runs the real `spawn()` with
+//!     instrumented actors on loopback UDP; the parent sends scripted datagrams, records what the
+//!     actors send to its observer sockets, freezes and kills the child, and hands the logs to the
+//!     Lean acceptance predicate (`o-trace`) and the model's datagram prediction (`loop-out`).
 use srh::out::*;
+use srh::rng::Rng;
+use stateright::actor::{spawn, Actor, Id, Out as AOut};
+use std::borrow::Cow;
+use std::io::{BufRead, BufReader, Write};
+use std::net::{Ipv4Addr, SocketAddr, SocketAddrV4, UdpSocket};
+use std::process::{Child, Command, Stdio};
+use std::sync::atomic::{AtomicBool, Ordering};
+use std::sync::{Arc, Mutex};
+use std::time::Duration;
+
+// ---------------------------------------------------------------------------------------------
+// clock: CLOCK_MONOTONIC in ns (the clock `Instant` uses on Linux), comparable across processes
+#[repr(C)]
+struct Timespec {
+    tv_sec: i64,
+    tv_nsec: i64,
+}
+extern "C" {
+    fn clock_gettime(clk: i32, ts: *mut Timespec) -> i32;
+}
+fn now_ns() -> u64 {
+    let mut ts = Timespec { tv_sec: 0, tv_nsec: 0 };
+    unsafe {
+        clock_gettime(1, &mut ts);
+    }
+    ts.tv_sec as u64 * 1_000_000_000 + ts.tv_nsec as u64
+}
+
+// ---------------------------------------------------------------------------------------------
+// message codec handed to spawn() (mirrored by `serMsg` / `deMsg` in lean/SR/Drv/C17.lean)
+fn ser(m: &u32) -> Result<Vec<u8>, String> {
+    if *m % 7 == 6 {
+        Err("unserializable".into())
+    } else {
+        Ok(format!("M{}", m).into_bytes())
+    }
+}
+fn de(b: &[u8]) -> Result<u32, String> {
+    if b.first() != Some(&b'M') {
+        return Err("no tag".into());
+    }
+    let ds = &b[1..];
+    if ds.is_empty() || ds.len() > 10 || !ds.iter().all(|c| c.is_ascii_digit()) {
+        return Err("not a number".into());
+    }
+    let v: u64 = ds.iter().fold(0u64, |acc, d| acc * 10 + (*d - b'0') as u64);
+    if v < 4294967296 {
+        Ok(v as u32)
+    } else {
+        Err("too big".into())
+    }
+}
+fn hex(b: &[u8]) -> String {
+    if b.is_empty() {
+        "-".into()
+    } else {
+        b.iter().map(|x| format!("{:02x}", x)).collect()
+    }
+}
+fn addr_sx(a: &SocketAddrV4) -> String {
+    let o = a.ip().octets();
+    format!("({} {} {} {} {})", o[0], o[1], o[2], o[3], a.port())
+}
+
+// ---------------------------------------------------------------------------------------------
+// the instrumented actor (child side)
+static FROZEN: AtomicBool = AtomicBool::new(false);
+
+#[derive(Clone)]
+struct ScriptActor {
+    seed: u64,
+    idx: usize,
+    actors: Vec<Id>,
+    observers: Vec<Id>,
+    sink: Arc<Mutex<std::io::Stdout>>,
+}
+enum Cm {
+    Send(Id, u32),
+    Set(u8, u64, u64),
+    Cancel(u8),
+    Choose(String, Vec<u8>),
+}
+impl ScriptActor {
+    /// deterministic behaviour table: (kind, state, args) -> (new state, commands)
+    fn behave(&self, kind: u64, st: u32, a: u64, b: u64) -> (u32, Vec<Cm>) {
+        let mut h = Rng::new(self.seed ^ (self.idx as u64).wrapping_mul(0x1234_5678_9abc_def1));
+        for x in [kind, st as u64, a, b] {
+            h = Rng::new(h.next() ^ x.wrapping_mul(0x9E37_79B9_7F4A_7C15));
+        }
+        let mut r = h;
+        let count = st / 1000;
+        let new_st = (count + 1) * 1000 + r.below(1000) as u32;
+        let ttl = if kind == 1 { (b / 1_000_000) % 10 } else { if count < 10 { 2 } else { 0 } };
+        let n = if kind == 0 { 1 + r.below(3) } else { r.below(4) };
+        let mut cmds = Vec::new();
+        for _ in 0..n {
+            match r.below(11) {
+                0..=2 => cmds.push(Cm::Send(*r.pick(&self.observers), r.below(100_000) as u32)),
+                3 => {
+                    // an id with bits above 48 set: same address as the observer
+                    let o: usize = (*r.pick(&self.observers)).into();
+                    let hi = ((r.below(0xffff) + 1) as u64) << 48;
+                    cmds.push(Cm::Send(Id::from((o as u64 | hi) as usize), r.below(1000) as u32));
+                }
+                4 | 10 => {
+                    if ttl > 0 && !self.actors.is_empty() {
+                        let dst = *r.pick(&self.actors);
+                        let mut p = r.below(1_000_000) as u64;
+                        if (ttl - 1) * 1_000_000 + p > 4_000_000_000 {
+                            p = 0;
+                        }
+                        cmds.push(Cm::Send(dst, ((ttl - 1) * 1_000_000 + p) as u32));
+                    }
+                }
+                5 | 6 => {
+                    if count < 15 {
+                        let k = r.below(3) as u8;
+                        let lo = (20 + r.below(100)) as u64 * 1_000_000;
+                        let hi = match r.below(4) {
+                            0 => lo,
+                            1 => lo / 2, // reversed range: the code uses `start`
+                            _ => lo + (1 + r.below(80)) as u64 * 1_000_000,
+                        };
+                        cmds.push(Cm::Set(k, lo, hi));
+                    }
+                }
+                7 => cmds.push(Cm::Cancel(r.below(3) as u8)),
+                8 => {
+                    let nv = r.below(4);
+                    let vals: Vec<u8> = (0..nv).map(|_| r.below(5) as u8).collect();
+                    cmds.push(Cm::Choose(format!("k{}", r.below(2)), vals));
+                }
+                _ => cmds.push(Cm::Send(*r.pick(&self.observers), (r.below(1000) * 7 + 6) as u32)),
+            }
+        }
+        (new_st, cmds)
+    }
+    fn emit(&self, head: String, new_st: u32, cmds: Vec<Cm>, o: &mut AOut<Self>) {
+        let mut cs = Vec::new();
+        for c in &cmds {
+            cs.push(match c {
+                Cm::Send(d, m) => format!("(send {} {})", usize::from(*d), m),
+                Cm::Set(k, lo, hi) => format!("(set {} {} {})", k, lo, hi),
+                Cm::Cancel(k) => format!("(cancel {})", k),
+                Cm::Choose(key, vs) => {
+                    format!("(choose {} ({}))", key, vs.iter().map(|v| v.to_string()).collect::<Vec<_>>().join(" "))
+                }
+            });
+        }
+        let line = format!("L {} ({} {} ({}))\n", self.idx, head, new_st, cs.join(" "));
+        {
+            let g = self.sink.lock().unwrap();
+            let mut w = g.lock();
+            let _ = w.write_all(line.as_bytes());
+            let _ = w.flush();
+        }
+        for c in cmds {
+            match c {
+                Cm::Send(d, m) => o.send(d, m),
+                Cm::Set(k, lo, hi) => o.set_timer(k, Duration::from_nanos(lo)..Duration::from_nanos(hi)),
+                Cm::Cancel(k) => o.cancel_timer(k),
+                Cm::Choose(key, vs) => o.choose_random(key, vs),
+            }
+        }
+    }
+}
+impl Actor for ScriptActor {
+    type Msg = u32;
+    type Timer = u8;
+    type State = u32;
+    type Random = u8;
+    fn on_start(&self, _id: Id, o: &mut AOut<Self>) -> u32 {
+        let t = now_ns();
+        let (st, cmds) = self.behave(0, 0, 0, 0);
+        self.emit(format!("start {}", t), st, cmds, o);
+        st
+    }
+    fn on_msg(&self, _id: Id, state: &mut Cow<u32>, src: Id, msg: u32, o: &mut AOut<Self>) {
+        let t = now_ns();
+        if FROZEN.load(Ordering::SeqCst) {
+            return;
+        }
+        let st_in = **state;
+        let (st, cmds) = self.behave(1, st_in, usize::from(src) as u64, msg as u64);
+        self.emit(format!("msg {} {} {} {}", t, st_in, usize::from(src), msg), st, cmds, o);
+        *state.to_mut() = st;
+    }
+    fn on_timeout(&self, _id: Id, state: &mut Cow<u32>, timer: &u8, o: &mut AOut<Self>) {
+        let t = now_ns();
+        if FROZEN.load(Ordering::SeqCst) {
+            return;
+        }
+        let st_in = **state;
+        let (st, cmds) = self.behave(2, st_in, *timer as u64, 0);
+        self.emit(format!("timeout {} {} {}", t, st_in, timer), st, cmds, o);
+        *state.to_mut() = st;
+    }
+    fn on_random(&self, _id: Id, state: &mut Cow<u32>, random: &u8, o: &mut AOut<Self>) {
+        let t = now_ns();
+        if FROZEN.load(Ordering::SeqCst) {
+            return;
+        }
+        let st_in = **state;
+        let (st, cmds) = self.behave(3, st_in, *random as u64, 0);
+        self.emit(format!("random {} {} {}", t, st_in, random), st, cmds, o);
+        *state.to_mut() = st;
+    }
+}
+
+fn lo(port: u16) -> SocketAddrV4 {
+    SocketAddrV4::new(Ipv4Addr::LOCALHOST, port)
+}
+
+/// `--child <seed> <n_actors> <ports...>`: actor ports first, then observer ports
+fn child_main(args: &[String]) -> ! {
+    let seed: u64 = args[0].parse().unwrap();
+    let n: usize = args[1].parse().unwrap();
+    let ports: Vec<u16> = args[2..].iter().map(|p| p.parse().unwrap()).collect();
+    let actors: Vec<Id> = ports[..n].iter().map(|p| Id::from(lo(*p))).collect();
+    let observers: Vec<Id> = ports[n..].iter().map(|p| Id::from(lo(*p))).collect();
+    // control channel: "freeze" stops logging/acting; EOF (parent gone) or 30 s ends the process
+    std::thread::spawn(|| {
+        let stdin = std::io::stdin();
+        let mut line = String::new();
+        loop {
+            line.clear();
+            match stdin.lock().read_line(&mut line) {
+                Ok(0) | Err(_) => std::process::exit(0),
+                Ok(_) => {
+                    if line.trim() == "freeze" {
+                        FROZEN.store(true, Ordering::SeqCst);
+                    }
+                }
+            }
+        }
+    });
+    std::thread::spawn(|| {
+        std::thread::sleep(Duration::from_secs(30));
+        std::process::exit(3);
+    });
+    let sink = Arc::new(Mutex::new(std::io::stdout()));
+    let list: Vec<(Id, ScriptActor)> = (0..n)
+        .map(|i| {
+            (actors[i], ScriptActor { seed, idx: i, actors: actors.clone(), observers: observers.clone(), sink: sink.clone() })
+        })
+        .collect();
+    let _ = spawn(ser, de, list);
+    std::process::exit(4)
+}
+
+// ---------------------------------------------------------------------------------------------
+// parent side of a scenario
+struct KillOnDrop(Child);
+impl Drop for KillOnDrop {
+    fn drop(&mut self) {
+        let _ = self.0.kill();
+        let _ = self.0.wait();
+    }
+}
+
+struct Dg {
+    t: u64,
+    src: SocketAddrV4,
+    dst: SocketAddrV4,
+    bytes: Vec<u8>,
+}
+impl Dg {
+    fn sx(&self) -> String {
+        format!("({} {} {} {})", self.t, addr_sx(&self.src), addr_sx(&self.dst), hex(&self.bytes))
+    }
+}
+
+struct ScenarioOut {
+    o_req: String,
+    m_cases: Vec<(String, String)>,
+    stats: Vec<(String, u64)>,
+    sample: String,
+    key: u64,
+}
+
+static PORT_LOCK: Mutex<()> = Mutex::new(());
+
+fn free_udp_ports(n: usize) -> Vec<u16> {
+    let _g = PORT_LOCK.lock().unwrap();
+    let socks: Vec<UdpSocket> = (0..n).map(|_| UdpSocket::bind("127.0.0.1:0").unwrap()).collect();
+    socks.iter().map(|s| s.local_addr().unwrap().port()).collect()
+}
+
+fn run_scenario(seed: u64) -> Result<ScenarioOut, String> {
+    let mut r = Rng::new(seed);
+    let n = 1 + r.below(3);
+    let n_obs = 2;
+    let exe = std::env::current_exe().map_err(|e| e.to_string())?;
+    let mut last_err = String::new();
+    for _attempt in 0..3 {
+        let actor_ports = free_udp_ports(n);
+        let obs: Vec<UdpSocket> = (0..n_obs).map(|_| UdpSocket::bind("127.0.0.1:0").unwrap()).collect();
+        let obs_addrs: Vec<SocketAddrV4> = obs
+            .iter()
+            .map(|s| match s.local_addr().unwrap() {
+                SocketAddr::V4(a) => a,
+                _ => unreachable!(),
+            })
+            .collect();
+        let mut cmd = Command::new(&exe);
+        cmd.arg("--child").arg(seed.to_string()).arg(n.to_string());
+        for p in &actor_ports {
+            cmd.arg(p.to_string());
+        }
+        for a in &obs_addrs {
+            cmd.arg(a.port().to_string());
+        }
+        let child = cmd.stdin(Stdio::piped()).stdout(Stdio::piped()).stderr(Stdio::null()).spawn().map_err(|e| e.to_string())?;
+        let mut child = KillOnDrop(child);
+        let stdout = child.0.stdout.take().unwrap();
+        let mut stdin = child.0.stdin.take().unwrap();
+        let lines: Arc<Mutex<Vec<String>>> = Arc::new(Mutex::new(Vec::new()));
+        let lines2 = lines.clone();
+        let reader = std::thread::spawn(move || {
+            let br = BufReader::new(stdout);
+            for l in br.split(b'\n') {
+                match l {
+                    Ok(bytes) => lines2.lock().unwrap().push(String::from_utf8_lossy(&bytes).to_string()),
+                    Err(_) => break,
+                }
+            }
+        });
+        // receivers
+        let stop = Arc::new(AtomicBool::new(false));
+        let recvd: Arc<Mutex<Vec<Dg>>> = Arc::new(Mutex::new(Vec::new()));
+        let mut rx_threads = Vec::new();
+        for (k, s) in obs.iter().enumerate() {
+            let s2 = s.try_clone().unwrap();
+            s2.set_read_timeout(Some(Duration::from_millis(40))).unwrap();
+            let stop = stop.clone();
+            let recvd = recvd.clone();
+            let me = obs_addrs[k];
+            rx_threads.push(std::thread::spawn(move || {
+                let mut buf = [0u8; 65535];
+                while !stop.load(Ordering::SeqCst) {
+                    if let Ok((cnt, SocketAddr::V4(from))) = s2.recv_from(&mut buf) {
+                        let t = now_ns();
+                        recvd.lock().unwrap().push(Dg { t, src: from, dst: me, bytes: buf[..cnt].to_vec() });
+                    }
+                }
+            }));
+        }
+        // wait for all on_start lines (sockets are bound before on_start runs)
+        let t0 = std::time::Instant::now();
+        let mut started = false;
+        while t0.elapsed() < Duration::from_secs(3) {
+            let c = lines.lock().unwrap().iter().filter(|l| l.contains("(start ")).count();
+            if c >= n {
+                started = true;
+                break;
+            }
+            if let Ok(Some(_)) = child.0.try_wait() {
+                break;
+            }
+            std::thread::sleep(Duration::from_millis(5));
+        }
+        if !started {
+            last_err = format!("child did not start {} actors within 3 s (ports {:?})", n, actor_ports);
+            stop.store(true, Ordering::SeqCst);
+            drop(child);
+            for t in rx_threads {
+                let _ = t.join();
+            }
+            let _ = reader.join();
+            continue;
+        }
+        // the script
+        let mut psent: Vec<Dg> = Vec::new();
+        let n_dg = 8 + r.below(14);
+        let mut kinds = [0u64; 4];
+        for _ in 0..n_dg {
+            std::thread::sleep(Duration::from_millis(5 + r.below(45) as u64));
+            let k = r.below(n_obs);
+            let a = r.below(n);
+            let bytes: Vec<u8> = match r.below(10) {
+                0 => {
+                    kinds[1] += 1;
+                    match r.below(6) {
+                        0 => b"X12".to_vec(),
+                        1 => Vec::new(),
+                        2 => b"M".to_vec(),
+                        3 => b"M99999999999".to_vec(),
+                        4 => vec![0xff, 0x00, 0x4d],
+                        _ => b"M4294967296".to_vec(),
+                    }
+                }
+                1 => {
+                    kinds[2] += 1;
+                    format!("M{}", r.below(1000) * 7 + 6).into_bytes()
+                }
+                2 => {
+                    kinds[3] += 1;
+                    format!("M00{}", r.below(1000)).into_bytes()
+                }
+                _ => {
+                    kinds[0] += 1;
+                    format!("M{}", r.below(4) * 1_000_000 + r.below(1_000_000)).into_bytes()
+                }
+            };
+            let dst = lo(actor_ports[a]);
+            let t = now_ns();
+            if obs[k].send_to(&bytes, dst).is_ok() {
+                psent.push(Dg { t, src: obs_addrs[k], dst, bytes });
+            }
+        }
+        // quiet period, freeze, drain, kill
+        std::thread::sleep(Duration::from_millis(500 + r.below(300) as u64));
+        let _ = stdin.write_all(b"freeze\n");
+        let _ = stdin.flush();
+        let t_end = now_ns();
+        std::thread::sleep(Duration::from_millis(150));
+        drop(child);
+        drop(stdin);
+        let _ = reader.join();
+        std::thread::sleep(Duration::from_millis(60));
+        stop.store(true, Ordering::SeqCst);
+        for t in rx_threads {
+            let _ = t.join();
+        }
+        // assemble
+        let lines = lines.lock().unwrap();
+        let mut logs: Vec<Vec<String>> = vec![Vec::new(); n];
+        let mut stats: Vec<(String, u64)> = Vec::new();
+        let mut cnt = std::collections::BTreeMap::new();
+        for l in lines.iter() {
+            // "L <idx> (<entry>)"; an incomplete last line (kill) is dropped
+            if !l.starts_with("L ") || !l.ends_with("))") {
+                continue;
+            }
+            let rest = &l[2..];
+            if let Some(sp) = rest.find(' ') {
+                if let Ok(i) = rest[..sp].parse::<usize>() {
+                    if i < n {
+                        let e = rest[sp + 1..].to_string();
+                        let kind = e[1..].split(' ').next().unwrap_or("").to_string();
+                        *cnt.entry(format!("handler-{}", kind)).or_insert(0u64) += 1;
+                        for c in ["(send ", "(set ", "(cancel ", "(choose "] {
+                            *cnt.entry(format!("cmd-{}", c.trim_matches(|x| x == '(' || x == ' '))).or_insert(0u64) +=
+                                e.matches(c).count() as u64;
+                        }
+                        logs[i].push(e);
+                    }
+                }
+            }
+        }
+        for (k, v) in cnt {
+            stats.push((k, v));
+        }
+        stats.push(("datagram-valid".into(), kinds[0]));
+        stats.push(("datagram-unparsable".into(), kinds[1]));
+        stats.push(("datagram-valid-unserializable-class".into(), kinds[2]));
+        stats.push(("datagram-noncanonical".into(), kinds[3]));
+        stats.push((format!("actors-{}", n), 1));
+        let recvd = recvd.lock().unwrap();
+        stats.push(("datagrams-observed".into(), recvd.len() as u64));
+        let actors_sx: Vec<String> = (0..n)
+            .map(|i| format!("({} ({}))", usize::from(Id::from(lo(actor_ports[i]))), logs[i].join(" ")))
+            .collect();
+        let obs_sx = format!("({})", obs_addrs.iter().map(addr_sx).collect::<Vec<_>>().join(" "));
+        let o_req = format!(
+            "o-trace ({}) ({}) ({}) {} {} {}",
+            actors_sx.join(" "),
+            psent.iter().map(|d| d.sx()).collect::<Vec<_>>().join(" "),
+            recvd.iter().map(|d| d.sx()).collect::<Vec<_>>().join(" "),
+            obs_sx,
+            t_end,
+            200_000_000u64
+        );
+        let mut m_cases = Vec::new();
+        for i in 0..n {
+            let me = lo(actor_ports[i]);
+            let mut seen: Vec<String> =
+                recvd.iter().filter(|d| d.src == me).map(|d| format!("{}:{}", addr_sx(&d.dst), hex(&d.bytes))).collect();
+            seen.sort();
+            m_cases.push((format!("loop-out {} {}", actors_sx[i], obs_sx), format!("({})", seen.join(" "))));
+        }
+        let sample = format!(
+            "scenario seed={} actors={} datagrams={} handlers={} observed={}",
+            seed,
+            n,
+            psent.len(),
+            logs.iter().map(|l| l.len()).sum::<usize>(),
+            recvd.len()
+        );
+        return Ok(ScenarioOut { o_req, m_cases, stats, sample, key: seed });
+    }
+    Err(last_err)
+}
+
+// ---------------------------------------------------------------------------------------------
+fn codec_part(out: &mut Out, rng: &mut Rng, thorough: bool) {
+    let mut ips: Vec<[u8; 4]> = vec![
+        [0, 0, 0, 0], [255, 255, 255, 255], [127, 0, 0, 1], [1, 2, 3, 4], [10, 0, 0, 7], [192, 168, 255, 0],
+        [0, 0, 0, 1], [128, 0, 0, 0], [255, 0, 0, 0], [0, 255, 0, 255], [1, 0, 0, 0], [0, 1, 0, 0], [0, 0, 1, 0],
+        [254, 255, 255, 255], [255, 255, 255, 254], [127, 255, 255, 255], [224, 0, 0, 1], [169, 254, 0, 1],
+    ];
+    let n_rand = if thorough { 4096 } else { 400 };
+    for _ in 0..n_rand {
+        let x = rng.next();
+        ips.push([(x >> 24) as u8, (x >> 16) as u8, (x >> 8) as u8, x as u8]);
+    }
+    let mut bad = 0u64;
+    for ip in &ips {
+        let ipn = u32::from_be_bytes(*ip) as u64;
+        let mut h: u64 = 0;
+        let mut ok: u64 = 0;
+        for port in 0..=65535u16 {
+            let a = SocketAddrV4::new(Ipv4Addr::from(*ip), port);
+            let id = Id::from(a);
+            let idn = usize::from(id) as u64;
+            let back = SocketAddrV4::from(id);
+            if back == a {
+                ok += 1;
+            }
+            if (idn != (ipn << 16 | port as u64) || back != a) && bad < 5 {
+                bad += 1;
+                out.v("codec-roundtrip", &format!("addr {} -> id {} -> addr {}", a, idn, back));
+            }
+            h = (h * 1000003 + idn) % 2147483647;
+        }
+        out.m(&format!("codec-sweep ({} {} {} {}) 0 65536", ip[0], ip[1], ip[2], ip[3]), &format!("({} {})", h, ok));
+        out.stat_n("codec-ports-swept", 65536);
+        out.distinct(&(10u8, *ip));
+    }
+    out.stat_n("codec-ips-swept", ips.len() as u64);
+    // individual cases
+    let n_ind = if thorough { 60000 } else { 6000 };
+    for i in 0..n_ind {
+        let x = rng.next();
+        let ip = if i % 8 == 0 { *rng.pick(&ips[..18]) } else { [(x >> 24) as u8, (x >> 16) as u8, (x >> 8) as u8, x as u8] };
+        let port = match rng.below(6) {
+            0 => 0,
+            1 => 65535,
+            2 => 255,
+            3 => 256,
+            _ => (x >> 32) as u16,
+        };
+        let a = SocketAddrV4::new(Ipv4Addr::from(ip), port);
+        let id = Id::from(a);
+        let idn = usize::from(id) as u64;
+        let back = SocketAddrV4::from(id);
+        out.m(&format!("codec-id {}", addr_sx(&a)), &idn.to_string());
+        out.o(&format!("o-codec {} {} {}", addr_sx(&a), idn, addr_sx(&back)));
+        out.distinct(&(11u8, ip, port));
+        // ids: arbitrary u64, biased to high bits set / boundaries
+        let idv: u64 = match rng.below(8) {
+            0 => idn | ((rng.below(0xffff) as u64 + 1) << 48),
+            1 => u64::MAX,
+            2 => 1u64 << 48,
+            3 => (1u64 << 48) - 1,
+            4 => rng.next() & 0xffff_ffff_ffff,
+            5 => rng.below(70000) as u64,
+            _ => rng.next(),
+        };
+        let ad = SocketAddrV4::from(Id::from(idv as usize));
+        let id2 = usize::from(Id::from(ad)) as u64;
+        out.m(&format!("codec-addr {}", idv), &addr_sx(&ad));
+        out.o(&format!("o-codec-id {} {} {}", idv, addr_sx(&ad), id2));
+        out.stat(if idv >> 48 != 0 { "codec-id-high-bits-set" } else { "codec-id-48-bit" });
+        out.distinct(&(12u8, idv));
+    }
+    // Display of an Id is the address
+    let a = SocketAddrV4::new(Ipv4Addr::new(1, 2, 3, 4), 5);
+    if format!("{}", Id::from(a)) != "1.2.3.4:5" {
+        out.v("codec-display", &format!("{}", Id::from(a)));
+    }
+    out.sample("codec: addr 1.2.3.4:5 <-> id 1108152156165; all 65536 ports of each swept ip checksummed against the model");
+}
+
 fn main() {
-    let out = Out::new();
+    let args: Vec<String> = std::env::args().collect();
+    if args.len() > 1 && args[1] == "--child" {
+        child_main(&args[2..]);
+    }
+    let mut out = Out::new();
+    out.max_samples = 8;
+    let thorough = thorough();
+    let mut rng = Rng::new(seed());
+    if arg_str("--only").as_deref() != Some("trace") {
+        codec_part(&mut out, &mut rng, thorough);
+    }
+    // fact the model's `zeroWait` branch rests on
+    match UdpSocket::bind("127.0.0.1:0") {
+        Ok(s) => {
+            if s.set_read_timeout(Some(Duration::ZERO)).is_ok() {
+                out.v("zero-read-timeout-accepted", "std accepted set_read_timeout(Some(0)): the model's zeroWait branch is wrong");
+            }
+        }
+        Err(e) => out.v("no-loopback-udp", &e.to_string()),
+    }
+    if arg_str("--only").as_deref() != Some("codec") {
+        let n_scen = arg_u64("--scenarios", if thorough { 60 } else { 6 }) as usize;
+        let par = if thorough { 12 } else { 6 };
+        let seeds: Vec<u64> = (0..n_scen).map(|_| rng.next()).collect();
+        let results: Arc<Mutex<Vec<(usize, Result<ScenarioOut, String>)>>> = Arc::new(Mutex::new(Vec::new()));
+        let next = Arc::new(Mutex::new(0usize));
+        let mut ths = Vec::new();
+        for _ in 0..par.min(n_scen) {
+            let seeds = seeds.clone();
+            let results = results.clone();
+            let next = next.clone();
+            ths.push(std::thread::spawn(move || loop {
+                let i = {
+                    let mut g = next.lock().unwrap();
+                    let i = *g;
+                    *g += 1;
+                    i
+                };
+                if i >= seeds.len() {
+                    break;
+                }
+                let res = run_scenario(seeds[i]);
+                results.lock().unwrap().push((i, res));
+            }));
+        }
+        // watchdog: a scenario takes ~2 s; everything must be over long before this
+        let t0 = std::time::Instant::now();
+        let limit = Duration::from_secs(20 + 4 * (n_scen as u64) / (par as u64).max(1) * 3);
+        loop {
+            if results.lock().unwrap().len() >= n_scen {
+                break;
+            }
+            if t0.elapsed() > limit {
+                out.v("hang", &format!("trace scenarios did not finish within {:?}", limit));
+                break;
+            }
+            std::thread::sleep(Duration::from_millis(20));
+        }
+        let mut res = std::mem::take(&mut *results.lock().unwrap());
+        res.sort_by_key(|x| x.0);
+        for (_, r) in res {
+            match r {
+                Ok(s) => {
+                    out.o(&s.o_req);
+                    for (q, e) in &s.m_cases {
+                        out.m(q, e);
+                    }
+                    for (k, v) in &s.stats {
+                        out.stat_n(k, *v);
+                    }
+                    out.stat("trace-scenarios");
+                    out.sample(&s.sample);
+                    out.distinct(&(13u8, s.key));
+                }
+                Err(e) => out.v("hang", &format!("spawn() child could not be started: {}", e)),
+            }
+        }
+    }
     out.finish();
+    std::process::exit(0);
 }
